@@ -15,7 +15,8 @@ from ..core import Violation, call
 from ..seams import SimCrash
 
 KINDS = [('sdo', 6), ('sco', 2), ('marking', 1), ('custom', 2), ('unreg', 3)]
-OPS = ['add', 'get', 'all_versions', 'query_all', 'query_type', 'query_id', 'save_load', 'restart', 'load_into']
+OPS = ['add', 'get', 'all_versions', 'query_all', 'query_type', 'query_id', 'save_load', 'restart', 'load_into', 'rebuild_memory',
+       'load_single']
 FORMS_M = ['single', 'single', 'list', 'bundle_obj', 'bundle_dict']
 FORMS_F = ['single', 'single', 'list', 'bundle_obj', 'bundle_dict', 'text', 'bundle_text']
 
@@ -29,7 +30,7 @@ class C11(Profile):
     probes = ['older_version_added_after_newer', 'bundle_form', 'text_form', 'unregistered_dict_versioned',
               'save_dir_path', 'torn_write_then_restart', 'enospc_mid_list', 'exact_readd', 'read_under_torn_file',
               'save_load_compared', 'utf16_save', 'bundlify_store', 'fault_on_read_fired', 'mixed_versions_in_memory',
-              'add_resolved_by_observation', 'same_instant_respelled', 'loaded_into_nonempty_store']
+              'add_resolved_by_observation', 'same_instant_respelled', 'loaded_into_nonempty_store', 'memory_store_constructed_with_data', 'single_object_file_loaded']
     rule = ('plans: a pool of <=12 ids x <=5 versions (versioned SDO/SRO of 2.0 and 2.1, 2.1 SCOs, marking definitions, registered '
             'custom type, unregistered dict-kept type) and 5-40 ops (adds in every documented form to a MemoryStore and a '
             'FileSystemStore on the simulated disk, reads, save/load, restart, repair); every 5th run injects I/O faults / crashes. '
@@ -57,7 +58,7 @@ class C11(Profile):
         n_ids = rng.randrange(2, 13)
         pool = SW.gen_pool(rng, index, n_ids, rng.choice([1, 2, 3, 5]), KINDS, digits_mixed=cfg['spelling_knob'])
         kinds = U.swarm_weights(rng, OPS, keep=0.8, must=('add',))
-        kinds = [(k, w * (4 if k == 'add' else 1) * (0.3 if k in ('save_load', 'restart', 'load_into') else 1)) for k, w in kinds]
+        kinds = [(k, w * (4 if k == 'add' else 1) * (0.3 if k in ('save_load', 'restart', 'load_into', 'rebuild_memory', 'load_single') else 1)) for k, w in kinds]
         ops = []
         nops = rng.randrange(5, 41)
         for _ in range(nops):
@@ -149,6 +150,10 @@ class C11(Profile):
                 world.log(op='restart')
             elif kind == 'load_into':
                 self.op_load_into(sw, world, op)
+            elif kind == 'rebuild_memory':
+                self.op_rebuild_memory(sw, world, op)
+            elif kind == 'load_single':
+                self.op_load_single(sw, world, op)
             elif kind == 'repair':
                 self.op_repair(sw, world)
             if kind != 'repair':
@@ -442,6 +447,55 @@ class C11(Profile):
         world.log(op='save_load', outcome='ok', n=len(model), path=op['path'], enc=enc)
         if op.get('adopt'):
             sw.M = M2
+
+    def op_rebuild_memory(self, sw, world, op):
+        """A new MemoryStore constructed from everything the current one returns (list, Bundle dict or Bundle object as stix_data)."""
+        stix2 = sw.stix2
+        model = sw.models['M']
+        q = call(sw.M.query, [])
+        if not q.ok or not q.value:
+            world.stat('op_skipped')
+            return
+        objs = list(q.value)
+        how = op.get('ls_key', 0) % 3
+        if how == 0:
+            data = objs
+        elif how == 1:
+            data = [json.loads(U.to_text(o)) for o in objs]
+        else:
+            data = {'type': 'bundle', 'id': C.mkid('bundle', world.op_index + 7), 'objects': [json.loads(U.to_text(o)) for o in objs]}
+            if not any('spec_version' in x for x in data['objects']):
+                data['spec_version'] = '2.0'
+        out = call(stix2.MemoryStore, stix_data=data, allow_custom=sw.cfg.get('m_allow_custom', True))
+        world.log(op='rebuild_memory', how=how, outcome=out.tag, n=len(objs))
+        if not out.ok:
+            if sw.cfg.get('m_allow_custom', True):
+                raise Violation('save-load', 'C11.rebuild-memory-raised/%s' % type(out.exc).__name__, dict(exc=repr(out.exc)[:300], how=how))
+            return
+        sw.M = out.value
+        world.probe('memory_store_constructed_with_data')
+        self.read_compare(sw, world, 'M', 'query_all', None)
+
+    def op_load_single(self, sw, world, op):
+        """load_from_file of a file that holds a single object (documented besides bundles)."""
+        pool = sw.pool
+        k = op.get('ls_key', 0) % len(pool)
+        j = (op.get('ls_key', 0) // 7) % SW.n_versions(pool[k])
+        d = SW.content(pool, k, j)
+        sw.nsave += 1
+        rel = os.path.join('save', 'single%d.json' % sw.nsave)
+        sw.disk.raw_write(rel, json.dumps(d).encode('utf-8'))
+        out = call(sw.M.load_from_file, os.path.join(sw.disk.root, rel))
+        key = SW.key_of(d)
+        world.log(op='load_single', key=SW.kstr(key), outcome=out.tag)
+        if out.ok:
+            sw.models['M'][key] = SW.norm(d)
+            world.changed()
+            world.probe('single_object_file_loaded')
+        else:
+            self.resolve_mem(sw, world, [(key, d)])
+        self.read_compare(sw, world, 'M', 'all_versions', key[0])
+        self.read_compare(sw, world, 'M', 'get', key[0])
 
     def op_load_into(self, sw, world, op):
         """Load an earlier export into the (non-empty) memory store: the result is the union."""
